@@ -55,7 +55,7 @@ def real_thread_runs(ctx):
     viol = []
     done = 0
     import tempfile
-    for _ in range(n):
+    for ri in range(n):
         spec = plans.gen_spec(rng, nmax=7)
         calls = [nd["id"] for nd in spec["nodes"] if nd["kind"] == "call"]
         failing = {i: rng.choice(["Failure", "BaseFailure", "SystemExit"]) for i in rng.sample(calls, min(len(calls), rng.choice([0, 0, 1, 2])))}
@@ -64,6 +64,36 @@ def real_thread_runs(ctx):
         base = set(threading.enumerate())
         with tempfile.TemporaryDirectory() as d:
             prog = rng.choice([console_progress, html_progress(d + "/p.html"), null_progress, (console_progress, html_progress(d + "/q.html"))])
+            if ri % 4 == 1:
+                # a composite in which a thread-owning observer sits next to one that raises while being entered / left
+                # (whichever comes first in the list): the update thread must be gone when run has raised
+                from uberjob.progress import Progress
+                from uberjob.progress._null_progress_observer import NullProgressObserver
+
+                class Faulty(NullProgressObserver):
+                    def __init__(self, where):
+                        self.where = where
+
+                    def __enter__(self):
+                        if self.where == "enter":
+                            raise OSError("this observer cannot be entered")
+                        return super().__enter__()
+
+                    def __exit__(self, *a):
+                        if self.where == "exit":
+                            raise OSError("this observer fails while being left")
+                        return super().__exit__(*a)
+
+                class FaultyProgress(Progress):
+                    def __init__(self, where):
+                        self.where = where
+
+                    def observer(self):
+                        return Faulty(self.where)
+
+                owner = rng.choice([console_progress, html_progress(d + "/r.html")])
+                faulty = FaultyProgress(rng.choice(["enter", "exit"]))
+                prog = (owner, faulty) if rng.random() < 0.5 else (faulty, owner)
             out = [N[i] for i in rng.sample(list(N), min(len(N), 2))]
             buf = io.StringIO()
             opts = dict(max_workers=rng.choice([1, 2, 5]), max_errors=rng.choice([0, 1, None]), scheduler=rng.choice(["default", "random"]))
